@@ -9,7 +9,9 @@ CONSTANTS
   FixDup = TRUE
   AutoSave = FALSE
   MaxEnv = 0
+  Names = FALSE
+  RoundRobin = FALSE
   FullLast = FALSE
   DupAlso = TRUE
-INVARIANTS Safe SafeWire EmitScn
+INVARIANTS Safe SafeWire IdxDesignates EmitScn
 CHECK_DEADLOCK FALSE
